@@ -25,11 +25,13 @@ FLOORS = {
     "quick": {"evaluations": 3000, "distinct": 400,
               "counters": {"delimiter_compares": 800, "linestatement_compares": 300,
                            "template_ctor_compares": 300, "overlay_compares": 300,
-                           "isolation_rerenders": 150, "lexer_configs_interleaved": 60}},
+                           "isolation_rerenders": 150, "lexer_configs_interleaved": 60,
+                           "pair_order_checks": 60}},
     "thorough": {"evaluations": 60000, "distinct": 6000,
                  "counters": {"delimiter_compares": 16000, "linestatement_compares": 6000,
                               "template_ctor_compares": 6000, "overlay_compares": 6000,
-                              "isolation_rerenders": 3000, "lexer_configs_interleaved": 60}},
+                              "isolation_rerenders": 3000, "lexer_configs_interleaved": 60,
+                              "pair_order_checks": 60}},
 }
 
 SYNTAXES = {
@@ -343,7 +345,10 @@ def make_churn(ctx, rng):
                                        trim_blocks=bool(n % 2), lstrip_blocks=bool(n % 3),
                                        keep_trailing_newline=bool(n % 5 == 0))
                 e.from_string("a " + bs + " if x %" + ">" * (1 + n % 3) + "b" + bs + " endif %" + ">" * (1 + n % 3)).render(x=1)
-                jinja2.Template("{{ v }}", trim_blocks=bool(n % 2), newline_sequence=["\n", "\r\n", "\r"][n % 3],
+                # (a comment delimiter nobody else uses keeps these lexer keys apart
+                # from the configurations under test)
+                jinja2.Template("{{ v }}", comment_start_string="{##", comment_end_string="##}",
+                                trim_blocks=bool(n % 2), newline_sequence=["\n", "\r\n", "\r"][n % 3],
                                 keep_trailing_newline=bool(n % 4 == 0), optimized=bool(n % 5)).render(v=n)
                 ctx.count("lexer_configs_interleaved")
             except Exception as ex:
@@ -351,11 +356,63 @@ def make_churn(ctx, rng):
     return churn
 
 
+PAIR_DIMS = [
+    ("trim_blocks", {"trim_blocks": True}, "{% if true %}\nx\n{% endif %}\ny"),
+    ("lstrip_blocks", {"lstrip_blocks": True}, "  {% if true %}\nx\n  {% endif %}y"),
+    ("keep_trailing_newline", {"keep_trailing_newline": True}, "x\n"),
+    ("newline_sequence", {"newline_sequence": "\r\n"}, "a\nb\nc"),
+    ("line_statement_prefix", {"line_statement_prefix": "#"}, "# if true\nx\n# endif\ny"),
+    ("line_comment_prefix", {"line_comment_prefix": "##"}, "x ## c\ny"),
+    ("variable_start_string", {"variable_start_string": "${", "variable_end_string": "}"}, "${ 1 }{{ 2 }}"),
+    ("block_start_string", {"block_start_string": "<%", "block_end_string": "%>"}, "<% if true %>a<% endif %>{% raw %}b{% endraw %}"),
+    ("comment_start_string", {"comment_start_string": "<#", "comment_end_string": "#>"}, "a<# c #>b{# d #}"),
+]
+
+
+def check_pairs(ctx, rng, churn):
+    """Order independence: two environments that differ in ONE lexer-relevant
+    option are used in both orders (shared caches flushed in between by
+    creating > 50 other configurations); every (configuration, source) must
+    render the same in both orders.  A cache keyed without that option hands
+    the second environment the first one's lexer."""
+    import jinja2
+
+    base_opts = dict(rng.choice([{}, {"trim_blocks": True}, {"lstrip_blocks": True, "keep_trailing_newline": True}]))
+    for name, delta, src in PAIR_DIMS:
+        if any(k in base_opts for k in delta):
+            continue
+        P = dict(base_opts)
+        Q = {**base_opts, **delta}
+
+        def one(opts):
+            def f():
+                try:
+                    return jinja2.Environment(**opts).from_string(src).render()
+                except jinja2.TemplateSyntaxError as e:
+                    return "TSE"
+            return util.capture(f)
+
+        for _ in range(10):
+            churn()
+        p1, q1 = one(P), one(Q)
+        for _ in range(10):
+            churn()
+        q2, p2 = one(Q), one(P)
+        ctx.ev(4)
+        ctx.count("pair_order_checks")
+        if not same(p1, p2) or not same(q1, q2):
+            ctx.violation("isolation:order-dependent:" + name,
+                          f"configs {P} / {Q} on {src!r}: first order gave {p1!r},{q1!r}; reverse order gave {p2!r},{q2!r}",
+                          {"kind": "pair", "dim": name, "base": base_opts})
+        ctx.dist(["pair", name, sorted(base_opts)])
+
+
 def run(ctx):
     rng = ctx.rng("c13")
     n = 400 if ctx.tier == "quick" else 9000
     churn = make_churn(ctx, rng)
     i = 0
+    check_pairs(ctx, rng, churn)
     while ctx.more(i, n, floor=40):
         case = corpus.gen_case(rng)
         check_case(ctx, case, rng, churn)
@@ -369,6 +426,9 @@ def replay(ctx, case):
     import random
 
     rng = random.Random(0)
+    if case.get("kind") == "pair":
+        check_pairs(ctx, rng, make_churn(ctx, rng))
+        return
     if case.get("kind") == "lines":
         import jinja2
 
